@@ -304,15 +304,19 @@ func (p *prepared) finish(r interface{}) string {
 // loaded machine): real time that has passed since the last op is accumulated and, beyond 50 ms,
 // taken back out of every stored timestamp.  Virtual time only advances through `tick`.
 func (h *harness) freeze() {
-	now := time.Now()
-	if !h.mark.IsZero() {
-		h.skew += now.Sub(h.mark)
-	}
-	h.mark = now
-	if h.skew > 50*time.Millisecond {
+	// The shift itself takes real time (etcd round trips; hundreds of ms on a starved machine): that time stays
+	// accounted in skew — dropping it made virtual time creep forward by one shift duration per op.
+	for i := 0; i < 3; i++ {
+		now := time.Now()
+		if !h.mark.IsZero() {
+			h.skew += now.Sub(h.mark)
+		}
+		h.mark = now
+		if h.skew <= 50*time.Millisecond {
+			return
+		}
 		h.shift(-h.skew)
 		h.skew = 0
-		h.mark = time.Now()
 	}
 }
 
